@@ -1,5 +1,6 @@
 (* Db/Notifications.v — server/kv/notifications_tracker.go: the per-request notification batch
    (a Go map keyed by user key: the last operation on a key wins) and the read side. *)
+(* C17: [notif_deleted_range] follows the repaired DeletedRange (empty ranges, same-start ranges). *)
 From Coq Require Import List NArith ZArith Bool.
 From Oxia.Db Require Import Types Bytes Keys Kv.
 Import ListNotations.
@@ -28,10 +29,30 @@ Definition notif_deleted (m : option nmap) (k : key) : option nmap :=
   | Some nm => if is_internal k then Some nm else Some (nm_set nm k NDeleted)
   end.
 
+(* Go map lookup m[k] *)
+Fixpoint nm_find (m : nmap) (k : key) : option notif :=
+  match m with
+  | [] => None
+  | (k', n) :: tl => if bytes_eqb k k' then Some n else nm_find tl k
+  end.
+
+(* CompareWithSlash(a, b) >= 0 *)
+Definition key_geb (a b : key) : bool := match KeyOrder.Model.cmp_slash a b with Lt => false | _ => true end.
+
+(* DeletedRange, as repaired (fixes/O-17b): an empty range (start >= end) records nothing - it used to replace
+   whatever the batch said about the start key -, and of two ranges with the same start key the one that
+   covers both is kept (the map can hold one). *)
 Definition notif_deleted_range (m : option nmap) (start_ end_ : key) : option nmap :=
   match m with
   | None => None
-  | Some nm => if is_internal start_ then Some nm else Some (nm_set nm start_ (NRangeDeleted end_))
+  | Some nm =>
+      if is_internal start_ then Some nm
+      else if key_geb start_ end_ then Some nm
+      else match nm_find nm start_ with
+           | Some (NRangeDeleted prev) =>
+               if key_geb prev end_ then Some nm else Some (nm_set nm start_ (NRangeDeleted end_))
+           | _ => Some (nm_set nm start_ (NRangeDeleted end_))
+           end
   end.
 
 (* ReadNextNotifications after the wait: every stored batch with key in
